@@ -1089,12 +1089,32 @@ type c13Font struct {
 	privs    []c13Priv
 	widths   []float64
 	encoding []int // simple fonts: 256 glyph ids, or nil (standard encoding)
+	full     bool  // the description carries angle, font matrices and the real-valued private entries
+	angle    float64
+	fm       [6]float64
+	fms      [][6]float64
 }
 
 type c13Priv struct {
-	bv, ob     []int
-	bs, bf     int
-	forceBold  bool
+	bv, ob         []int
+	bs, bf         int
+	forceBold      bool
+	bscale, hw, vw float64
+}
+
+func c13M6(m [6]float64) string {
+	parts := make([]string, 6)
+	for i, x := range m {
+		parts[i] = c13Short(x)
+	}
+	return strings.Join(parts, ",")
+}
+
+func c13ParseM6(s string) (m [6]float64) {
+	for i, p := range strings.Split(s, ",") {
+		m[i] = c13ParseDec(p)
+	}
+	return m
 }
 
 // c13Dec prints a float64 as the exact decimal [-]<mantissa>e<exp> (no trailing zeros).
@@ -1197,6 +1217,9 @@ func (f *c13Font) String() string {
 			b.WriteByte('/')
 		}
 		fmt.Fprintf(&b, "%s.%s.%d.%d.%s", c13IntList(p.bv), c13IntList(p.ob), p.bs, p.bf, c13Bool(p.forceBold))
+		if f.full {
+			fmt.Fprintf(&b, ".%s.%s.%s", c13Short(p.bscale), c13Short(p.hw), c13Short(p.vw))
+		}
 	}
 	ws := make([]string, len(f.widths))
 	for i, w := range f.widths {
@@ -1205,6 +1228,16 @@ func (f *c13Font) String() string {
 	fmt.Fprintf(&b, ";w:%s", strings.Join(ws, ","))
 	if f.encoding != nil {
 		fmt.Fprintf(&b, ";enc:%s", ints(f.encoding))
+	}
+	if f.full {
+		fmt.Fprintf(&b, ";angle:%s;fm:%s", c13Real9(f.angle), c13M6(f.fm))
+		if f.isCID {
+			ms := make([]string, len(f.fms))
+			for i, m := range f.fms {
+				ms[i] = c13M6(m)
+			}
+			fmt.Fprintf(&b, ";fms:%s", strings.Join(ms, "/"))
+		}
 	}
 	return b.String()
 }
@@ -1240,6 +1273,10 @@ func c13ParseFont(s string) *c13Font {
 		p.bs, _ = strconv.Atoi(q[2])
 		p.bf, _ = strconv.Atoi(q[3])
 		p.forceBold = q[4] == "1"
+		p.bscale = 0.039625
+		if len(q) == 8 {
+			p.bscale, p.hw, p.vw = c13ParseDec(q[5]), c13ParseDec(q[6]), c13ParseDec(q[7])
+		}
 		f.privs = append(f.privs, p)
 	}
 	for _, w := range strings.Split(kv["w"], ",") {
@@ -1247,6 +1284,16 @@ func c13ParseFont(s string) *c13Font {
 	}
 	if e, ok := kv["enc"]; ok {
 		f.encoding = c13ParseIntList(e)
+	}
+	if a, ok := kv["angle"]; ok {
+		f.full = true
+		f.angle = c13ParseDec(a)
+		f.fm = c13ParseM6(kv["fm"])
+		if ms, ok := kv["fms"]; ok {
+			for _, m := range strings.Split(ms, "/") {
+				f.fms = append(f.fms, c13ParseM6(m))
+			}
+		}
 	}
 	return f
 }
@@ -1268,6 +1315,7 @@ func (f *c13Font) build() *cff.Font {
 		FontName: f.name, Version: f.strs[0], Notice: f.strs[1], Copyright: f.strs[2], FullName: f.strs[3],
 		FamilyName: f.strs[4], Weight: f.strs[5], IsFixedPitch: f.fixed,
 		UnderlinePosition: funit.Float64(f.ulPos), UnderlineThickness: funit.Float64(f.ulThick),
+		ItalicAngle: f.angle,
 	}
 	o := &cff.Outlines{}
 	for i, w := range f.widths {
@@ -1279,7 +1327,8 @@ func (f *c13Font) build() *cff.Font {
 	}
 	for _, p := range f.privs {
 		o.Private = append(o.Private, &type1.PrivateDict{BlueValues: c13I16(p.bv), OtherBlues: c13I16(p.ob),
-			BlueScale: 0.039625, BlueShift: int32(p.bs), BlueFuzz: int32(p.bf), ForceBold: p.forceBold})
+			BlueScale: p.bscale, BlueShift: int32(p.bs), BlueFuzz: int32(p.bf), ForceBold: p.forceBold,
+			StdHW: p.hw, StdVW: p.vw})
 	}
 	fds := f.fds
 	o.FDSelect = func(gid glyph.ID) int { return fds[gid] }
@@ -1289,8 +1338,12 @@ func (f *c13Font) build() *cff.Font {
 		for _, c := range f.cids {
 			o.GIDToCID = append(o.GIDToCID, cid.CID(c))
 		}
-		for range f.privs {
-			o.FontMatrices = append(o.FontMatrices, matrix.Matrix{0.001, 0, 0, 0.001, 0, 0})
+		for i := range f.privs {
+			m := matrix.Matrix{0.001, 0, 0, 0.001, 0, 0}
+			if f.full && i < len(f.fms) {
+				m = matrix.Matrix(f.fms[i])
+			}
+			o.FontMatrices = append(o.FontMatrices, m)
 		}
 	} else {
 		info.FontMatrix = matrix.Matrix{0.001, 0, 0, 0.001, 0, 0}
@@ -1300,12 +1353,15 @@ func (f *c13Font) build() *cff.Font {
 			}
 		}
 	}
+	if f.full {
+		info.FontMatrix = matrix.Matrix(f.fm)
+	}
 	return &cff.Font{FontInfo: info, Outlines: o}
 }
 
 // c13Summary describes a font delivered by cff.Read in the same canonical text.
-func c13Summary(g *cff.Font, withEnc bool) string {
-	f := &c13Font{name: g.FontName, fixed: g.IsFixedPitch, ulPos: float64(g.UnderlinePosition), ulThick: float64(g.UnderlineThickness)}
+func c13Summary(g *cff.Font, withEnc bool, full bool) string {
+	f := &c13Font{full: full, angle: g.ItalicAngle, fm: [6]float64(g.FontInfo.FontMatrix),name: g.FontName, fixed: g.IsFixedPitch, ulPos: float64(g.UnderlinePosition), ulThick: float64(g.UnderlineThickness)}
 	f.strs = [6]string{g.Version, g.Notice, g.Copyright, g.FullName, g.FamilyName, g.Weight}
 	for gid, gl := range g.Glyphs {
 		f.widths = append(f.widths, gl.Width)
@@ -1323,7 +1379,7 @@ func c13Summary(g *cff.Font, withEnc bool) string {
 		}
 	}
 	for _, p := range g.Private {
-		q := c13Priv{bs: int(p.BlueShift), bf: int(p.BlueFuzz), forceBold: p.ForceBold}
+		q := c13Priv{bs: int(p.BlueShift), bf: int(p.BlueFuzz), forceBold: p.ForceBold, bscale: p.BlueScale, hw: p.StdHW, vw: p.StdVW}
 		for _, x := range p.BlueValues {
 			q.bv = append(q.bv, int(x))
 		}
@@ -1331,6 +1387,9 @@ func c13Summary(g *cff.Font, withEnc bool) string {
 			q.ob = append(q.ob, int(x))
 		}
 		f.privs = append(f.privs, q)
+	}
+	for _, m := range g.FontMatrices {
+		f.fms = append(f.fms, [6]float64(m))
 	}
 	if withEnc && g.ROS == nil {
 		for _, x := range g.Encoding {
@@ -1353,7 +1412,7 @@ func init() {
 			if err != nil {
 				return "read-" + c13Err(err)
 			}
-			return c13Summary(g, d.encoding != nil)
+			return c13Summary(g, d.encoding != nil, d.full)
 		})
 	}
 	// the real writer's bytes (the generator put them into the case line) read by the Lean spec reader
@@ -1601,8 +1660,44 @@ func c13GenFonts(c *Ctx, n int) {
 		}
 		c.Stat("file_private_dicts", bucket(np))
 		c.Stat("file_glyphs", bucket(ng))
+		f.full = true
+		if f.isCID {
+			f.fm = [6]float64{1, 0, 0, 1, 0, 0}
+		} else {
+			f.fm = [6]float64{0.001, 0, 0, 0.001, 0, 0}
+		}
+		if r.Chance(1, 4) {
+			f.angle = float64(r.Range(-17999, 17999)) / 100
+			c.Stat("file_italic_angle", "non-zero")
+		} else {
+			c.Stat("file_italic_angle", "zero")
+		}
+		randM := func() [6]float64 {
+			return Pick(r, [][6]float64{{0.0005, 0, 0, 0.0005, 0, 0}, {0.001, 0, 0.000176, 0.001, 0, 0}, {1, 0, 0, 1, 0, 0},
+				{0.001, 0, 0, 0.001, 0, 0}, {0.000488281, 0, 0, 0.000488281, 10.5, -3}, {2, 0.5, -0.25, 2, 0, 0}})
+		}
+		if r.Chance(1, 4) {
+			f.fm = randM()
+			c.Stat("file_font_matrix", "given")
+		} else {
+			c.Stat("file_font_matrix", "default")
+		}
 		for p := 0; p < np; p++ {
-			q := c13Priv{bs: 7, bf: 1}
+			q := c13Priv{bs: 7, bf: 1, bscale: 0.039625}
+			if f.isCID {
+				m := [6]float64{0.001, 0, 0, 0.001, 0, 0}
+				if r.Chance(1, 4) {
+					m = randM()
+				}
+				f.fms = append(f.fms, m)
+			}
+			if r.Chance(1, 4) {
+				q.bscale = Pick(r, []float64{0.05, 0.03, 0.0375, 0.039625, 0.25, 1, 0})
+			}
+			if r.Chance(1, 3) {
+				q.hw = float64(r.Range(0, 400)) / 2
+				q.vw = float64(r.Range(0, 40000)) / 4
+			}
 			if np <= 16 || p < 3 {
 				q.bv = c13RandBlues(r, 7)
 				q.ob = c13RandBlues(r, 5)
@@ -1628,10 +1723,20 @@ func c13GenFonts(c *Ctx, n int) {
 			want := desc
 			if encKind != "" {
 				// the spec reader does not know the predefined encodings: compare everything else
-				want = strings.SplitN(desc, ";enc:", 2)[0]
+				if i := strings.Index(desc, ";enc:"); i >= 0 {
+					rest := desc[i+5:]
+					j := strings.IndexByte(rest, ';')
+					if j < 0 {
+						j = len(rest)
+					}
+					want = desc[:i] + rest[j:]
+				}
 			}
 			c.Case(Direct, "cff.file.spec", "file="+out[3:]+" want="+want, ng > 1)
 			c.Stat("file_bytes", bucket(len(out[3:])/2))
+			if len(out) < 6000 {
+				c13ReadCases(c, c13HexMust(out[3:]), 6)
+			}
 		} else {
 			c.Stat("file_write", out)
 		}
@@ -2012,4 +2117,182 @@ func c13GenStrings(c *Ctx, n int) {
 		}
 		c.Case(Verdict, "cff.strings.lookup", "names="+c13HexList(std[lo:hi]), true)
 	}
+}
+
+// ---------------------------------------------------------------------------------------
+// cff.Read against its Lean model (stream cff.file.read)
+
+// c13Real9 prints a float64 rounded to nine significant digits, [-]<mantissa>e<exp> without
+// trailing zeros (values that went through float arithmetic in Read: the italic angle).
+func c13Real9(x float64) string {
+	if x == 0 {
+		return "0e0"
+	}
+	sign := ""
+	if x < 0 {
+		sign = "-"
+		x = -x
+	}
+	s := strconv.FormatFloat(x, 'e', 8, 64)
+	i := strings.IndexByte(s, 'e')
+	e, _ := strconv.Atoi(s[i+1:])
+	digits := strings.Replace(s[:i], ".", "", 1)
+	e -= len(digits) - 1
+	for len(digits) > 1 && digits[len(digits)-1] == '0' {
+		digits = digits[:len(digits)-1]
+		e++
+	}
+	return fmt.Sprintf("%s%se%d", sign, digits, e)
+}
+
+// c13Short is the shortest decimal that identifies the float64 (values parsed from DICT reals).
+func c13Short(x float64) string { return c13ShowReal(x)[1:] }
+
+func c13Matrix(m matrix.Matrix) string {
+	parts := make([]string, 6)
+	for i, x := range m {
+		parts[i] = c13Short(x)
+	}
+	return strings.Join(parts, ",")
+}
+
+func c13ReadSummary(g *cff.Font, withW bool) string {
+	var b strings.Builder
+	strs := []string{g.Version, g.Notice, g.Copyright, g.FullName, g.FamilyName, g.Weight}
+	// normaliseAngle works in float64 (x+180, Mod 360): comparable with the exact model only on
+	// written files, where the angle is a short decimal
+	angle := "-"
+	if withW {
+		angle = c13Real9(g.ItalicAngle)
+	}
+	fmt.Fprintf(&b, "name:%s;strs:%s;fixed:%s;angle:%s;ul:%s,%s;fm:%s;n:%d", c13ShowBlob([]byte(g.FontName)),
+		c13HexList(strs), c13Bool(g.IsFixedPitch), angle, c13Short(float64(g.UnderlinePosition)),
+		c13Short(float64(g.UnderlineThickness)), c13Matrix(g.FontInfo.FontMatrix), len(g.Glyphs))
+	if g.ROS != nil {
+		cids := make([]string, len(g.GIDToCID))
+		for i, c := range g.GIDToCID {
+			cids[i] = fmt.Sprint(uint32(c))
+		}
+		fds := make([]int, len(g.Glyphs))
+		for i := range fds {
+			fds[i] = g.FDSelect(glyph.ID(i))
+		}
+		fms := make([]string, len(g.FontMatrices))
+		for i, m := range g.FontMatrices {
+			fms[i] = c13Matrix(m)
+		}
+		fmt.Fprintf(&b, ";kind:c;ros:%s,%s,%d;cids:%s;fds:%s;fms:%s", c13ShowBlob([]byte(g.ROS.Registry)),
+			c13ShowBlob([]byte(g.ROS.Ordering)), g.ROS.Supplement, strings.Join(cids, ","), ints(fds), strings.Join(fms, "/"))
+	} else {
+		names := make([]string, len(g.Glyphs))
+		for i, gl := range g.Glyphs {
+			names[i] = gl.Name
+		}
+		enc := make([]int, len(g.Encoding))
+		for i, x := range g.Encoding {
+			enc[i] = int(x)
+		}
+		fmt.Fprintf(&b, ";kind:s;names:%s;enc:%s", c13HexList(names), ints(enc))
+	}
+	b.WriteString(";privs:")
+	for i, p := range g.Private {
+		if i > 0 {
+			b.WriteByte('/')
+		}
+		var bv, ob []int
+		for _, x := range p.BlueValues {
+			bv = append(bv, int(x))
+		}
+		for _, x := range p.OtherBlues {
+			ob = append(ob, int(x))
+		}
+		fmt.Fprintf(&b, "%s.%s.%s.%d.%d.%s.%s.%s", c13IntList(bv), c13IntList(ob), c13Short(p.BlueScale), p.BlueShift, p.BlueFuzz,
+			c13Short(p.StdHW), c13Short(p.StdVW), c13Bool(p.ForceBold))
+	}
+	if withW {
+		ws := make([]string, len(g.Glyphs))
+		for i, gl := range g.Glyphs {
+			ws[i] = c13Dec(gl.Width)
+		}
+		fmt.Fprintf(&b, ";w:%s", strings.Join(ws, ","))
+	}
+	return b.String()
+}
+
+func init() {
+	ops["cff.file.read"] = func(f Fields) string {
+		return c13Guard(func() string {
+			g, err := cff.Read(bytes.NewReader(f.Hex("file")))
+			if err != nil {
+				return c13Err(err)
+			}
+			return "ok:" + c13ReadSummary(g, f["w"] == "1")
+		})
+	}
+}
+
+var c13CharstringErrors = []string{"cff: invalid store index", "curveTo before moveTo", "incomplete type 2 charstring",
+	"invalid index", "invalid roll count", "invalid type 2 subroutine index", "lineTo before moveTo",
+	"maximum call stack size exceeded", "too early for hintmask", "too late for stem commands", "type 2 stack overflow",
+	"type 2 stack underflow", "unsupported type 2 opcode"}
+
+// c13ReadCases emits the cff.file.read cases for one written font: the file as written (with
+// widths) and damaged copies.  Damaged files whose outcome depends on the interpretation of a
+// charstring (property C05, not modelled here), on reals of more than 15 digits or on the UTF-8
+// sanitising of getString are not comparable and skipped.
+func c13ReadCases(c *Ctx, file []byte, nmut int) {
+	r := c.Rng
+	res := c.Case(Verdict, "cff.file.read", "file="+hx(file)+" w=1", true)
+	c.Stat("read_written", c13OutcomeClass(res))
+	for k := 0; k < nmut; k++ {
+		m := append([]byte(nil), file...)
+		switch r.Intn(7) {
+		case 0:
+			m = m[:r.Intn(len(m)+1)]
+		case 1, 2:
+			m[r.Intn(len(m))] ^= byte(1 << r.Intn(8))
+		case 3:
+			m[r.Intn(len(m))] = byte(r.U64())
+		case 4: // inside header, Name INDEX and Top DICT
+			lim := 60
+			if lim > len(m) {
+				lim = len(m)
+			}
+			m[r.Intn(lim)] = byte(r.U64())
+		case 5: // small operand values
+			m[r.Intn(len(m))] = byte(r.Range(139-4, 139+4))
+		case 6: // the tail: private DICTs and subrs
+			lo := len(m) - 40
+			if lo < 0 {
+				lo = 0
+			}
+			m[lo+r.Intn(len(m)-lo)] = byte(r.U64())
+		}
+		if c13RealTooLong(m) {
+			c.Stat("read_mutated", "skipped: real > 15 digits")
+			continue
+		}
+		g, err := cff.Read(bytes.NewReader(m))
+		if err != nil {
+			skip := false
+			for _, msg := range c13CharstringErrors {
+				if strings.Contains(err.Error(), msg) {
+					skip = true
+				}
+			}
+			if skip {
+				c.Stat("read_mutated", "skipped: charstring error")
+				continue
+			}
+		} else if strings.ContainsRune(c13ReadSummaryStrings(g), '�') {
+			c.Stat("read_mutated", "skipped: invalid UTF-8 in a string")
+			continue
+		}
+		out := c.Case(Verdict, "cff.file.read", "file="+hx(m)+" w=0", true)
+		c.Stat("read_mutated", c13OutcomeClass(out))
+	}
+}
+
+func c13ReadSummaryStrings(g *cff.Font) string {
+	return g.Version + g.Notice + g.Copyright + g.FullName + g.FamilyName + g.Weight
 }
